@@ -131,6 +131,203 @@ def showRes11 (tag : OvTag) (m : Res SNum) : String :=
   | .und, .unreachable "negative overflow" => "TRAP-"
   | _, _ => showRes showSN m
 
+
+/-! ### typed lines: any narrowest type, multi-word storage, built-in operands (values in hex) -/
+
+def hexDigit11 (c : Char) : Option Nat :=
+  if '0' ≤ c && c ≤ '9' then some (c.toNat - '0'.toNat)
+  else if 'a' ≤ c && c ≤ 'f' then some (c.toNat - 'a'.toNat + 10)
+  else none
+
+/-- `0x1f`, `-0x1f` or decimal -/
+def parseIntX (s : String) : Option Int :=
+  let (neg, cs) := match s.toList with
+    | '-' :: r => (true, r)
+    | r => (false, r)
+  match cs with
+  | '0' :: 'x' :: ds =>
+    if ds.isEmpty then none else
+    (ds.foldlM (fun (acc : Nat) c => (hexDigit11 c).map (fun d => acc * 16 + d)) 0).map
+      (fun (n : Nat) => if neg then -(n : Int) else (n : Int))
+  | _ => s.toInt?
+
+def hexNat11 (n : Nat) : String := String.ofList (Nat.toDigits 16 n)
+
+def showHex11 (v : Int) : String := if v < 0 then "-0x" ++ hexNat11 v.natAbs else "0x" ++ hexNat11 v.natAbs
+
+def showTN (t : TNum) : String := s!"sn({t.x.digits},{t.x.exp},{t.n.toString}):{showHex11 t.x.value}"
+
+/-- `sn(D,E,N):hex` -/
+def parseTN (s : String) : Option (Nat × Int × IntTy × Int) :=
+  match s.splitOn ":" with
+  | [t, v] =>
+    match (t.drop 3).toString.dropEnd 1 |>.toString.splitOn "," with
+    | [d, e, n] => do let d ← d.toNat?; let e ← e.toInt?; let n ← parseIntTy n; let v ← parseIntX v; some (d, e, n, v)
+    | _ => none
+  | _ => none
+
+def showResT (tag : OvTag) (m : Res TNum) : String :=
+  match tag, m with
+  | .und, .unreachable "positive overflow" => "TRAP+"
+  | .und, .unreachable "negative overflow" => "TRAP-"
+  | _, _ => showRes showTN m
+
+/-- narrowing assignment to `D` digits of the given signedness at exponent `E` -/
+def idealCvtS (mode : RdMode) (tag : OvTag) (signed : Bool) (D : Nat) (E : Int) (a : Ideal) : Ideal :=
+  match a with
+  | .val e v =>
+    let w : Int := if E ≤ e then v * 2^(e - E).toNat else Spec.roundDiv (modeOf11 mode) v (2^(E - e).toNat)
+    let lo : Int := if signed then -(2^D - 1 : Int) else 0
+    if w > 2^D - 1 then (if tag == .sat then .val E (2^D - 1) else .signal true)
+    else if w < lo then (if tag == .sat then .val E lo else .signal false)
+    else .val E w
+  | o => o
+
+/-- the implementation's result against the ideal; a terminal saturation is judged against the limits
+`[satLo, 2^satD − 1]`; a returned value must lie in the range its own type declares (non-negative under an
+unsigned narrowest type) -/
+def judgeT (tag : OvTag) (ideal : Ideal) (satD : Nat) (satSigned : Bool) (res : String) (rangeToo : Bool := true) :
+    Option Bool :=
+  let inRange : Bool := match parseTN res with
+    | some (d, _, n, v) => !rangeToo || (decide (v.natAbs ≤ 2^d - 1) && (n.signed || decide (0 ≤ v)))
+    | none => true
+  match ideal with
+  | .undef => none
+  | .val e v =>
+    if (tag == .thr || tag == .trp) && isSignal res then some true else
+    match parseTN res with
+    | some (_, e', _, v') => some (e == e' && v == v' && inRange)
+    | none => some false
+  | .signal p =>
+    match tag with
+    | .sat =>
+      match parseTN res with
+      | some (_, _, _, v') =>
+        some (v' == (if p then (2^satD - 1 : Int) else if satSigned then -(2^satD - 1 : Int) else 0) && inRange)
+      | none => some false
+    | .thr => some (res == (if p then "THROW+" else "THROW-"))
+    | .trp => some (res == (if p then "TRAP+" else "TRAP-"))
+    | .und => some (res == (if p then "TRAP+" else "TRAP-"))
+    | _ => none
+
+def cmpWant11 (op : CmpOp) (x y : Int) : Bool :=
+  match op with
+  | .lt => decide (x < y) | .le => decide (x ≤ y) | .gt => decide (x > y) | .ge => decide (x ≥ y)
+  | .eq => decide (x = y) | .ne => decide (x ≠ y)
+
+/-- the built-in operand of a static_number with a negative exponent `e` is scaled by `2^-e` in its own promoted
+type: class `C11.builtin_operand_scaled_in_its_own_type` when that product does not fit -/
+def mixScaleClass (op : String) (e : Int) (bt : IntTy) (b : Int) : String :=
+  if !(e ≥ 0 || op == "mul" || op == "div") && !(promote bt).inRange (b * 2^(-e).toNat) then
+    "C11.builtin_operand_scaled_in_its_own_type"
+  -- `from_value` gives a built-in operand the symmetric range of `digits T` digits: the most negative value is outside it
+  else if bt.signed && b == bt.lowest then "C11.builtin_operand_most_negative"
+  else ""
+
+def checkC11T (toks : List String) (res : String) : Option Verdict :=
+  match toks with
+  | ["tbin", nw, mode, tag, ops, d1, e1, d2, e2, a, b] => do
+    let n ← parseIntTy nw; let mode ← parseRdMode mode; let tag ← parseOvTag tag; let op ← parseBinOp ops
+    let d1 ← d1.toNat?; let e1 ← e1.toInt?; let d2 ← d2.toNat?; let e2 ← e2.toInt?; let a ← parseIntX a; let b ← parseIntX b
+    let m := binOpT ⟨mode, tag⟩ op ⟨n, ⟨d1, e1, a⟩⟩ ⟨n, ⟨d2, e2, b⟩⟩
+    let ideal := idealBin mode op (.val e1 a) (.val e2 b)
+    some { model := showResT tag m, spec := judgeT tag ideal 0 true res, branch := "tbin/" ++ nw ++ "/" ++ ops,
+           nontrivial := !(op == .div && b == 0) }
+  | ["tcmp", nw, _mode, _tag, ops, d1, e1, d2, e2, a, b] => do
+    let n ← parseIntTy nw; let op ← parseCmpOp ops
+    let d1 ← d1.toNat?; let e1 ← e1.toInt?; let d2 ← d2.toNat?; let e2 ← e2.toInt?; let a ← parseIntX a; let b ← parseIntX b
+    let m := cmpT op ⟨n, ⟨d1, e1, a⟩⟩ ⟨n, ⟨d2, e2, b⟩⟩
+    let e := min e1 e2
+    let want := cmpWant11 op (a * 2^(e1 - e).toNat) (b * 2^(e2 - e).toNat)
+    some { model := showRes showBool m, spec := some (res == showBool want), branch := "tcmp/" ++ nw ++ "/" ++ ops }
+  | ["tneg", nw, _mode, tag, d1, e1, a] => do
+    let n ← parseIntTy nw; let tag ← parseOvTag tag; let d1 ← d1.toNat?; let e1 ← e1.toInt?; let a ← parseIntX a
+    let m := negT ⟨n, ⟨d1, e1, a⟩⟩
+    some { model := showResT tag m, spec := judgeT tag (.val e1 (-a)) 0 true res, branch := "tneg/" ++ nw }
+  | ["tcvt", nw, mode, tag, d1, e1, d3, e3, a] => do
+    let n ← parseIntTy nw; let mode ← parseRdMode mode; let tag ← parseOvTag tag
+    let d1 ← d1.toNat?; let e1 ← e1.toInt?; let d3 ← d3.toNat?; let e3 ← e3.toInt?; let a ← parseIntX a
+    let m := convertT ⟨mode, tag⟩ n d3 e3 ⟨n, ⟨d1, e1, a⟩⟩
+    let ideal := idealCvtS mode tag n.signed d3 e3 (.val e1 a)
+    some { model := showResT tag m, spec := judgeT tag ideal d3 n.signed res, cls := c11CvtClass mode d1 e1 e3 a,
+           branch := "tcvt/" ++ nw ++ (if e3 > e1 then "/round" else "/exact") }
+  | ["tchain", nw, mode, tag, kind, d1, e1, d2, e2, d3, e3, a, b] => do
+    let n ← parseIntTy nw; let mode ← parseRdMode mode; let tag ← parseOvTag tag
+    let d1 ← d1.toNat?; let e1 ← e1.toInt?; let d2 ← d2.toNat?; let e2 ← e2.toInt?; let d3 ← d3.toNat?; let e3 ← e3.toInt?
+    let a ← parseIntX a; let b ← parseIntX b
+    let c : Cfg := ⟨mode, tag⟩
+    let x : TNum := ⟨n, ⟨d1, e1, a⟩⟩; let y : TNum := ⟨n, ⟨d2, e2, b⟩⟩
+    let ia : Ideal := .val e1 a; let ib : Ideal := .val e2 b
+    let cvtCls (r : Res TNum) : String := match r with
+      | .ok q => c11CvtClass mode q.x.digits q.x.exp e3 q.x.value
+      | _ => ""
+    let br := "tchain/" ++ nw ++ "/" ++ kind
+    match kind with
+    | "mul_add" =>
+      let m : Res TNum := do
+        let cc ← convertT c n d3 e3 x
+        let p ← binOpT c .mul x y
+        binOpT c .add p cc
+      let ideal := idealBin mode .add (idealBin mode .mul ia ib) (idealCvtS mode tag n.signed d3 e3 ia)
+      some { model := showResT tag m, spec := judgeT tag ideal d3 n.signed res, cls := c11CvtClass mode d1 e1 e3 a, branch := br }
+    | "sub_div_cvt" =>
+      let q : Res TNum := do let s ← binOpT c .sub x y; binOpT c .div s y
+      let m := q >>= convertT c n d3 e3
+      let ideal := idealCvtS mode tag n.signed d3 e3 (idealBin mode .div (idealBin mode .sub ia ib) ib)
+      some { model := showResT tag m, spec := judgeT tag ideal d3 n.signed res, cls := cvtCls q, branch := br, nontrivial := b != 0 }
+    | "mul_div" =>
+      let m : Res TNum := do let p ← binOpT c .mul x y; binOpT c .div p y
+      let ideal := idealBin mode .div (idealBin mode .mul ia ib) ib
+      some { model := showResT tag m, spec := judgeT tag ideal 0 true res, branch := br, nontrivial := b != 0 }
+    | "mul_sub" =>
+      let m : Res TNum := do let p ← binOpT c .mul x y; binOpT c .sub p x
+      let ideal := idealBin mode .sub (idealBin mode .mul ia ib) ia
+      some { model := showResT tag m, spec := judgeT tag ideal 0 true res, branch := br }
+    | "mul_gt" =>
+      let m : Res Bool := do let p ← binOpT c .mul x y; cmpT .gt p x
+      let e := min (e1 + e2) e1
+      let want := cmpWant11 .gt (a * b * 2^(e1 + e2 - e).toNat) (a * 2^(e1 - e).toNat)
+      some { model := showRes showBool m, spec := some (res == showBool want), branch := br }
+    | "mul_cvt" =>
+      let q := binOpT c .mul x y
+      let m := q >>= convertT c n d3 e3
+      let ideal := idealCvtS mode tag n.signed d3 e3 (idealBin mode .mul ia ib)
+      some { model := showResT tag m, spec := judgeT tag ideal d3 n.signed res, cls := cvtCls q, branch := br }
+    | "sub_cvt" =>
+      let q := binOpT c .sub x y
+      let m := q >>= convertT c n d3 e3
+      let ideal := idealCvtS mode tag n.signed d3 e3 (idealBin mode .sub ia ib)
+      some { model := showResT tag m, spec := judgeT tag ideal d3 n.signed res, cls := cvtCls q, branch := br }
+    | "add_sub_cvt" =>
+      let q : Res TNum := do let s ← binOpT c .add x y; binOpT c .sub s y
+      let m := q >>= convertT c n d3 e3
+      let ideal := idealCvtS mode tag n.signed d3 e3 (idealBin mode .sub (idealBin mode .add ia ib) ib)
+      some { model := showResT tag m, spec := judgeT tag ideal d3 n.signed res, cls := cvtCls q, branch := br }
+    | _ => none
+  | ["mixb", nw, mode, tag, ops, d, e, side, bt, a, b] => do
+    -- static (x) built-in: `side` = L: the built-in operand `b` of type `bt` is on the left
+    let n ← parseIntTy nw; let mode ← parseRdMode mode; let tag ← parseOvTag tag; let op ← parseBinOp ops
+    let d ← d.toNat?; let e ← e.toInt?; let bt ← parseIntTy bt; let a ← parseIntX a; let b ← parseIntX b
+    let s : Opnd := .stat ⟨n, ⟨d, e, a⟩⟩; let t : Opnd := .builtin bt b
+    let left := side == "L"
+    let m := if left then binOpO ⟨mode, tag⟩ n op t s else binOpO ⟨mode, tag⟩ n op s t
+    let ideal := if left then idealBin mode op (.val 0 b) (.val e a) else idealBin mode op (.val e a) (.val 0 b)
+    -- the exact value is all the property asks of a result whose built-in operand was the most negative number
+    some { model := showResT tag m, spec := judgeT tag ideal 0 true res (!(bt.signed && b == bt.lowest)), cls := mixScaleClass ops e bt b,
+           branch := "mixb/" ++ nw ++ "/" ++ ops ++ "/" ++ side ++ "/" ++ toks[8]!, nontrivial := a != 0 && b != 0 }
+  | ["mixc", nw, ops, d, e, side, bt, a, b] => do
+    let n ← parseIntTy nw; let op ← parseCmpOp ops
+    let d ← d.toNat?; let e ← e.toInt?; let bt ← parseIntTy bt; let a ← parseIntX a; let b ← parseIntX b
+    let s : Opnd := .stat ⟨n, ⟨d, e, a⟩⟩; let t : Opnd := .builtin bt b
+    let left := side == "L"
+    let m := if left then cmpO n op t s else cmpO n op s t
+    let e0 := min e 0
+    let av := a * 2^(e - e0).toNat; let bv := b * 2^(0 - e0).toNat
+    let want := if left then cmpWant11 op bv av else cmpWant11 op av bv
+    some { model := showRes showBool m, spec := some (res == showBool want), cls := mixScaleClass "cmp" e bt b,
+           branch := "mixc/" ++ nw ++ "/" ++ ops ++ "/" ++ side ++ "/" ++ toks[6]!, nontrivial := a != 0 && b != 0 }
+  | _ => none
+
 def checkC11 (toks : List String) (res : String) : Option Verdict :=
   match toks with
   | ["shift", ops, mode, tag, d, es, ck, x, k] => do
@@ -211,8 +408,8 @@ def checkC11 (toks : List String) (res : String) : Option Verdict :=
       if Overflow.isOverflowConvertFloat f dl true q then (narrowDigits c d (hi + 1)).map (fun v => ⟨d, e, v⟩)
       else if Overflow.isOverflowConvertFloat f dl false q then (narrowDigits c d (-hi - 1)).map (fun v => ⟨d, e, v⟩)
       else
-        match Elastic.repTy d narrowest with
-        | none => .ill "digits exceed the widest integer"
+        match storage narrowest d with
+        | none => .ill "no storage for the digits"
         | some rep => (RoundCvt.floatToInt mode f rep q).map (fun v => ⟨d, e, v⟩)
     -- ideal: the exact value rounded by the mode, then the overflow reaction
     let ideal : Ideal := match x.toRat? with
@@ -265,6 +462,6 @@ def checkC11 (toks : List String) (res : String) : Option Verdict :=
         | _ => ""
       some { model := showRes showSN m, spec := judge tag ideal d3 res, cls := cls, branch := "chain/sub_div_cvt", nontrivial := b != 0 }
     | _ => none
-  | _ => none
+  | _ => checkC11T toks res
 
 end Cnl.Drv
